@@ -442,6 +442,30 @@ for mn, cn in d['integrators']:
     except SyntaxError as e:
         same = False
     if not same: bad = dict(integrator=cn, emitted=code[:400]); break
+# ... and for integrators written the way users write them: trailing
+# comments, '#' inside strings, blank lines, nested blocks, multi-line
+import tempfile, os
+HOSTILE = "class TrailingComments(object):\n    def one_timestep(self, t, dt):\n        self.initialize()  # save the state\n        self.compute_accelerations()  # first evaluation\n        self.stage1()\n        self.do_post_stage(0.5*dt, 1)  # half step\n\n        self.compute_accelerations(1, update_nnps=False)  # no refresh needed\n        self.stage2()\n        self.update_domain()   # wrap\n        self.do_post_stage(dt, 2)\n\nclass HashInString(object):\n    def one_timestep(self, t, dt):\n        # full-line comment\n        self.compute_accelerations()\n        tag = 'stage #1'\n        if dt > 0:\n            self.stage1()    # nested\n            self.do_post_stage(dt, 1)\n        else:\n            self.stage2()\n\nclass MultiLineSignature(object):\n    def one_timestep(self,\n                     t,\n                     dt):\n        self.stage1(); self.stage2()\n        self.do_post_stage(\n            dt,   # the full step\n            1)\n"
+tf = tempfile.NamedTemporaryFile('w', suffix='.py', delete=False, dir='/tmp')
+tf.write(HOSTILE); tf.close()
+try:
+    spec = importlib.util.spec_from_file_location('hostile_ut', tf.name)
+    hm = importlib.util.module_from_spec(spec); spec.loader.exec_module(hm)
+    for cn in ('TrailingComments', 'HashInString', 'MultiLineSignature'):
+        if bad: break
+        cls = getattr(hm, cn)
+        h = ih.IntegratorCythonHelper.__new__(ih.IntegratorCythonHelper); h.object = cls()
+        n += 1
+        try:
+            code = h.get_timestep_code()
+            got = ast.parse(code).body
+        except Exception as e:
+            bad = dict(integrator=cn, error=repr(e)[:300]); break
+        body = ast.parse(textwrap.dedent(inspect.getsource(cls.one_timestep))).body[0].body
+        if [ast.dump(x) for x in got] != [ast.dump(x) for x in body]:
+            bad = dict(integrator=cn + ' (synthetic: comments / strings / multi-line)', emitted=code[:500])
+finally:
+    os.unlink(tf.name)
 res['timestep_code'] = dict(cases=n, bad=bad)
 # ---- stage wrapper emission
 from mako.template import Template
@@ -489,8 +513,9 @@ def task_bounded(ctx, repo):
         err = ''
     except Exception as e:
         res, err = None, str(e)[-400:]
-    bounds = dict(timestep_code='every shipped Integrator subclass (%d)' %
-                  len(ints),
+    bounds = dict(timestep_code='every shipped Integrator subclass (%d) + 3 '
+                  'synthetic ones with comments, strings, multi-line '
+                  'statements' % len(ints),
                   stage_wrapper='real template, 1-2 arrays x all '
                   'has-loop / has-py_stage valuations')
     for k in ('timestep_code', 'stage_wrapper'):
